@@ -437,9 +437,13 @@ def _build_mech(name):
         def digest(self):
             return b'<' + self.data + b'>'
 
-    def h(c0, r0, as_str, right):
+    SHAPES = ['two', 'one', 'three', 'empty', 'blank', 'none']
+
+    def h(c0, r0, as_str, right, shape):
         for b in (c0, r0):
             assume(48 <= b <= 57)      # tokens of ASCII digits (no whitespace, hex-safe)
+        assume(0 <= shape < len(SHAPES))
+        kind = SHAPES[shape]
         with notrace():
             m = authentication.BusCookieAuthenticator()
             m.challenge_str = b'CH'
@@ -453,22 +457,36 @@ def _build_mech(name):
             client_chal = bytes([c0, 55])
             good = binascii.hexlify(b'<' + b'CH:' + client_chal + b':COOKIE>')
             resp_hash = good if right else bytes([r0, 49])
-            response = client_chal + b' ' + resp_hash
-            if as_str:
+            if kind == 'two':
+                response = client_chal + b' ' + resp_hash
+            elif kind == 'one':
+                response = resp_hash
+            elif kind == 'three':
+                response = client_chal + b' ' + resp_hash + b' x'
+            elif kind == 'empty':
+                response = b''
+            elif kind == 'blank':
+                response = b'  '
+            else:
+                response = None
+            if as_str and response is not None:
                 response = response.decode('ascii')       # what BusAuthenticator.stepAuth hands over
             m.step_num = 1
             res = m.step(response)
         finally:
             authentication.hashlib = saved
-        if right:
+        if right and kind == 'two':
             check(res[0] == 'OK', 'the right cookie response is rejected')
         else:
-            check(res[0] != 'OK', 'a wrong cookie response is accepted')
-        check(len(deleted) >= 1, 'cookie not deleted after the attempt')
+            check(res[0] != 'OK', 'a response that is not "<challenge> <right hash>" is accepted')
+        if response is not None:
+            check(len(deleted) >= 1, 'cookie not deleted after the attempt')
         reached()
     h.__name__ = 'mech_cookie'
-    return Spec(h, [('c0', int), ('r0', int), ('as_str', bool), ('right', bool)],
-                witnesses=[(48, 50, False, True), (48, 50, True, True), (48, 50, True, False), (48, 50, False, False)])
+    return Spec(h, [('c0', int), ('r0', int), ('as_str', bool), ('right', bool), ('shape', int)],
+                witnesses=[(48, 50, False, True, 0), (48, 50, True, True, 0), (48, 50, True, False, 0), (48, 50, False, False, 0),
+                           (48, 50, True, True, 1), (48, 50, True, False, 2), (48, 50, True, False, 3), (48, 50, False, False, 4),
+                           (48, 50, False, False, 5)])
 
 
 def _build_e2e(mech):
